@@ -933,7 +933,15 @@ class ServerSSM(SSM):
         # there is a value in the device information then use that one because
         # it came from reading device object property value or from an I-Am
         # message that was received
-        self.maxApduLengthAccepted = decode_max_apdu_length_accepted(apdu.apduMaxResp)
+        try:
+            self.maxApduLengthAccepted = decode_max_apdu_length_accepted(apdu.apduMaxResp)
+        except ValueError:
+            # reserved value, there is no telling what the client can receive
+            if _debug: ServerSSM._debug("    - invalid apduMaxResp: %r", apdu.apduMaxResp)
+
+            abort = self.abort(AbortReason.other)
+            self.response(abort)
+            return
         if self.device_info and self.device_info.maxApduLengthAccepted is not None:
             if self.device_info.maxApduLengthAccepted < self.maxApduLengthAccepted:
                 if _debug: ServerSSM._debug("    - apduMaxResp encoding error")
